@@ -150,6 +150,7 @@ impl StateApplyManager {
         let data_store = self.data_store.clone().unwrap();
          */
         let index_manager = self.index_manager.clone().unwrap();
+        let data_wrap = self.data_wrap.clone();
         async move {
             let reader = SnapshotReader::init_by_file(file).await?;
             let header = reader.get_header();
@@ -163,7 +164,9 @@ impl StateApplyManager {
                 member_after_consensus,
                 node_addr: Some(header.node_addrs.clone()),
             });
-            //Self::do_load_snapshot(reader).await?;
+            if let Some(data_wrap) = data_wrap {
+                Self::do_load_snapshot(data_wrap, reader).await?;
+            }
 
             Ok(())
         }
